@@ -1308,6 +1308,24 @@ def operator_selection(ctx, op, mode, user=None):
         tv = c['res']
         if tv is not None and tv[0] == 'call' and sg(tv[1]) in ('std::cmp::Ord::cmp', 'std::cmp::PartialOrd::partial_cmp') and sg(c['decl']) != sg(tv[1]):
             recs.append((tv, sg(tv[1]), tuple(tv[2])))
+    # ... or the comparison is made inside a crate helper the operator delegates to (`|x, y| first_unless_greater(&compare, x, y)`):
+    # the tests that decide the operator's result, wherever the analysis meets them, mention the comparison term
+    pk = ('sel-probe', op)
+    if pk not in ctx.cache:
+        probed_ = []
+
+        def probe(d):
+            probed_.append(d)
+            return None
+        ctx.opa.run(op[1], [op, x, y], seeds={'atoms': probe, 'key': pk})     # (memoised by the engine: the callback runs once)
+        ctx.cache[pk] = probed_
+    probed = ctx.cache[pk]
+    seen_t = {t for (t, _, _) in recs}
+    for d in probed:
+        for z in subterms(d) if d is not None else ():
+            if z[0] == 'call' and z not in seen_t:
+                seen_t.add(z)
+                recs.append((z, sg(z[1]), tuple(z[2])))
     for (t, dcl, cargs) in recs:
         c = {'args': cargs, 'decl': dcl}
         if mode == 'natural' and dcl in ('std::cmp::Ord::cmp', 'std::cmp::PartialOrd::partial_cmp'):
